@@ -530,7 +530,20 @@ func (r *Runner) builtin(ctx context.Context, pos syntax.Pos, name string, args 
 			},
 		}
 		p.next()
-		expr := p.classicTest("[", false)
+		var expr syntax.TestExpr
+		if len(args) == 3 {
+			// POSIX: with three arguments, a binary operator in the middle
+			// decides, even if the first argument looks like "!" or "(".
+			if op := testBinaryOp(args[1]); op != illegalTok {
+				lit := func(s string) *syntax.Word {
+					return &syntax.Word{Parts: []syntax.WordPart{&syntax.Lit{Value: s}}}
+				}
+				expr = &syntax.BinaryTest{Op: op, X: lit(args[0]), Y: lit(args[2])}
+			}
+		}
+		if expr == nil {
+			expr = p.classicTest("[", false)
+		}
 		if parseErr {
 			exit.code = 2
 			return exit
